@@ -141,11 +141,20 @@ class Twin:
             warnings.simplefilter("ignore", SyntaxWarning)
             code = compile(src, path, "exec")
         self.loaded_files.append(path)
+        # dataclasses (and pickle / typing helpers) look the defining module up in sys.modules at class-creation time:
+        # expose the twin module under its name for the duration of its own execution only
+        prev = sys.modules.get(name, None)
+        sys.modules[name] = mod
         try:
             exec(code, mod.__dict__)
         except BaseException:
             del self.modules[name]
             raise
+        finally:
+            if prev is None:
+                sys.modules.pop(name, None)
+            else:
+                sys.modules[name] = prev
         self._apply_stubs(name, mod)
         return mod
 
